@@ -180,11 +180,15 @@ func collectSchemaBits(s interface{}, pats, fmts map[string]bool, muls map[strin
 		switch k {
 		case "enum", "default", "example", "required":
 			continue
-		case "properties", "patternProperties", "definitions", "dependencies":
+		case "properties", "patternProperties", "definitions", "dependencies", "responses", "headers", "parameters", "paths":
+			// maps from names to schema-like objects: a member called "default" or "example" here is a name (the default
+			// response, a header called example), not a keyword
 			if sub, ok := v.(map[string]interface{}); ok {
 				for _, e := range sub {
 					collectSchemaBits(e, pats, fmts, muls)
 				}
+			} else {
+				collectSchemaBits(v, pats, fmts, muls)
 			}
 		default:
 			collectSchemaBits(v, pats, fmts, muls)
